@@ -976,7 +976,9 @@ def m_sliceit_next_back(E, st, fid, t, args, dest_ty):
 @model(IT + 'nth', 'n times next() (stopping at the first None), then next()')
 def m_nth(E, st, fid, t, args, dest_ty):
     if t['callee']['resolved'] == 'unresolved':
-        return E.user_call(st, fid, t, args, dest_ty)
+        # (unresolved in the generic MIR; the receiver may still be, in this inlining context, an iterator of core)
+        r = E.dispatch_by_value(st, fid, t, args, dest_ty)
+        return r if r is not None else E.user_call(st, fid, t, args, dest_ty)
     it_ptr, ip = _with_iter(E, st, fid, args[0])
     n = args[1]
     if n[0] != 'int':
@@ -1011,7 +1013,9 @@ def m_nth(E, st, fid, t, args, dest_ty):
 @model(IT + 'last', 'drives the iterator to its end and returns the last item it gave')
 def m_last(E, st, fid, t, args, dest_ty):
     if t['callee']['resolved'] == 'unresolved':
-        return E.user_call(st, fid, t, args, dest_ty)
+        # (unresolved in the generic MIR; the receiver may still be, in this inlining context, an iterator of core)
+        r = E.dispatch_by_value(st, fid, t, args, dest_ty)
+        return r if r is not None else E.user_call(st, fid, t, args, dest_ty)
     it_ptr, ip = _with_iter(E, st, fid, args[0])
     acc = pin(st, fid, NONE)
 
@@ -1125,7 +1129,9 @@ MODEL_DOC[IT + 'all'] = 'false as soon as the predicate answers false for an ite
 @model(IT + 'for_each', 'calls the closure once per item, front to back')
 def m_for_each(E, st, fid, t, args, dest_ty):
     if t['callee']['resolved'] == 'unresolved':
-        return E.user_call(st, fid, t, args, dest_ty)
+        # (unresolved in the generic MIR; the receiver may still be, in this inlining context, an iterator of core)
+        r = E.dispatch_by_value(st, fid, t, args, dest_ty)
+        return r if r is not None else E.user_call(st, fid, t, args, dest_ty)
     it_ptr, ip = _with_iter(E, st, fid, args[0])
     cell = pin(st, fid, ('ref', True, E.closure_cell(st, args[1])))
 
@@ -1149,7 +1155,9 @@ def m_for_each(E, st, fid, t, args, dest_ty):
        'acc = f(acc, item) once per item, front to back; returns the final acc')
 def m_fold(E, st, fid, t, args, dest_ty):
     if t['callee']['resolved'] == 'unresolved':
-        return E.user_call(st, fid, t, args, dest_ty)
+        # (unresolved in the generic MIR; the receiver may still be, in this inlining context, an iterator of core)
+        r = E.dispatch_by_value(st, fid, t, args, dest_ty)
+        return r if r is not None else E.user_call(st, fid, t, args, dest_ty)
     it_ptr, ip = _with_iter(E, st, fid, args[0])
     acc = pin(st, fid, args[1])
     cell = pin(st, fid, ('ref', True, E.closure_cell(st, args[2])))
